@@ -351,6 +351,25 @@ func scenarios() []scen {
 			// a later Func must still be able to use (recompute) the result
 			runWant(sess, o, "H", mapRows(0, 100), fMapOf, r, 100)
 		}},
+		scen{"dist/discardscan", []string{"C19", "C12"}, 1, func(sess *exec.Session, o *outcome) {
+			// A scan that starts only once the discard has marked the task LOST on the driver
+			// (its remote part may still be pending); then a later Func must be able to use r.
+			var r *exec.Result
+			vsched.Prelude(func() { r = runWant(sess, o, "R", srcRows(0), fSrc, 0, 1) })
+			par(func() { r.Discard(context.Background()); o.add("D") },
+				func() {
+					vsched.Await("source-task-lost", func() bool {
+						for _, st := range exec.VerifC19ResultStates(r) {
+							if st == exec.TaskLost {
+								return true
+							}
+						}
+						return false
+					})
+					scanPrefix(o, "S", r, srcRows(0))
+				})
+			runWant(sess, o, "H", mapRows(0, 100), fMapOf, r, 100)
+		}},
 		scen{"dist/mix3", []string{"C19", "C12"}, 1, func(sess *exec.Session, o *outcome) {
 			var r *exec.Result
 			vsched.Prelude(func() { r = runWant(sess, o, "R", srcRows(0), fSrc, 0, 1) })
@@ -656,7 +675,11 @@ func main() {
 		if !use {
 			continue
 		}
-		plans = append(plans, mc.Plan{Scenario: s.name, Delay: true, Bound: bound, Budget: budget})
+		b := bound
+		if s.isDist() && s.name != "dist/discardscan" && !r.Thorough() {
+			b = 1 // cluster executions are ~10x slower; the Await-based scenario keeps bound 2
+		}
+		plans = append(plans, mc.Plan{Scenario: s.name, Delay: true, Bound: b, Budget: budget})
 		if r.Thorough() {
 			plans = append(plans, mc.Plan{Scenario: s.name, Delay: false, Bound: 0, Budget: budget})
 		}
